@@ -266,6 +266,72 @@ func runC08(r *Report) {
 		if len(names) < 2 {
 			r.Fail("R-C08-3", reg.Pos(), "RegisterConnection writes fewer than the two confirmed record families", "RegisterConnection", "floor")
 		}
+		// a missing client index is re-created by the keep-alive: the index write in RefreshConnection is
+		// reachable on the edge where reading the index answered "not found" (a live, heartbeating client
+		// whose index expired or whose first index write failed becomes locatable again)
+		if rf := r.need("R-C08-3", csPkg, "Store.RefreshConnection"); rf != nil {
+			var idxSet ssa.CallInstruction
+			for _, c := range Calls(rf, false, "Set") {
+				if kc, _ := CallOfValue(c.Common().Args[0]); kc != nil && CalleeOf(kc).Name == "makeClientKey" {
+					idxSet = c
+				}
+			}
+			ok := false
+			if idxSet != nil {
+				Instrs(rf, func(in ssa.Instruction) {
+					bo, isB := in.(*ssa.BinOp)
+					if !isB || bo.Op != token.EQL || bo.Referrers() == nil {
+						return
+					}
+					isNF := func(v ssa.Value) bool {
+						u, ok := stripValue(v).(*ssa.UnOp)
+						if !ok {
+							return false
+						}
+						g, ok := u.X.(*ssa.Global)
+						return ok && g.Name() == "ErrKeyNotFound"
+					}
+					var errv ssa.Value
+					if isNF(bo.Y) {
+						errv = bo.X
+					} else if isNF(bo.X) {
+						errv = bo.Y
+					} else {
+						return
+					}
+					gc, _ := CallOfValue(errv)
+					if gc == nil || CalleeOf(gc).Name != "Get" {
+						return
+					}
+					if kc, _ := CallOfValue(gc.Common().Args[0]); kc == nil || CalleeOf(kc).Name != "makeClientKey" {
+						return
+					}
+					for _, u := range *bo.Referrers() {
+						iff, isIf := u.(*ssa.If)
+						if !isIf {
+							continue
+						}
+						hits := WalkFrom(iff.Block().Succs[0], nil, func(x ssa.Instruction) int {
+							if x == idxSet.(ssa.Instruction) {
+								return Hit
+							}
+							if ci, isC := x.(ssa.CallInstruction); isC && CalleeOf(ci).Name == "clientIndexPointsTo" {
+								return Stop
+							}
+							return Cont
+						}, nil)
+						if len(hits) > 0 {
+							ok = true
+						}
+					}
+				})
+			}
+			pos := rf.Pos()
+			if idxSet != nil {
+				pos = CallPos(idxSet)
+			}
+			r.Ob("R-C08-3", pos, ok, "the keep-alive writes the client index also when it is missing (edge `Get(clientKey) == ErrKeyNotFound` reaches the index write), not only when it still names this connection", "RefreshConnection", "keepalive-recreates-missing-index")
+		}
 		// runtime-state refresh
 		okRT := len(Calls(hb, false, "EnsureClientOnline", "TouchClient")) > 0
 		r.Ob("R-C08-3", hb.Pos(), okRT, "the heartbeat handler refreshes the client's runtime (online) state", "handleHeartbeat", "keepalive:runtime-state")
@@ -291,8 +357,33 @@ func runC08(r *Report) {
 					bad := CanReach(rg.Block(), un.Block()) || (rg.Block() == un.Block() && Before(rg.(ssa.Instruction), un.(ssa.Instruction)))
 					r.Ob("R-C08-1", CallPos(un), !bad, "the previous connection's record is unregistered before the new one is registered (otherwise the old cleanup runs after and against the new index)", "handleHandshake", "old-unregistered-first")
 				}
-				// the connection id registered is this packet's connection
-				// (ConnectionStateInfo literal field origin)
+				// what is registered: this packet's connection, under the identity the connection was
+				// authenticated as (never an id copied from the request: on a first-connection
+				// handshake the request carries 0 and the server allocates the id), on this node
+				if info, ok := stripValue(Arg(rg, 1)).(*ssa.Alloc); ok {
+					want := map[string]func(o string) bool{
+						"ClientID":     func(o string) bool { return strings.Contains(o, "GetClientID") && !strings.Contains(o, "HandshakeRequest") },
+						"ConnectionID": func(o string) bool { return strings.Contains(o, "StreamPacket.ConnectionID") },
+						"NodeID":       func(o string) bool { return strings.Contains(o, "SessionManager.nodeID") },
+					}
+					seenF := map[string]bool{}
+					for _, st := range fieldStores(info) {
+						chk, isW := want[st.field]
+						if !isW {
+							continue
+						}
+						seenF[st.field] = true
+						o := originSummary(st.val)
+						r.Ob("R-C08-1", st.pos, chk(o), "registered "+st.field+" originates from "+o, "handleHandshake", "registered-field:"+st.field)
+					}
+					for _, fld := range []string{"ClientID", "ConnectionID", "NodeID"} {
+						if !seenF[fld] {
+							r.Fail("R-C08-1", CallPos(rg), "registered record does not set "+fld, "handleHandshake", "registered-field:"+fld)
+						}
+					}
+				} else {
+					r.Fail("R-C08-1", CallPos(rg), "registered record is not a literal built here: "+originSummary(Arg(rg, 1)), "handleHandshake", "registered-field:anchor")
+				}
 			}
 		}
 	}
@@ -388,4 +479,30 @@ func summaryTrueImpliesEq(f *ssa.Function, p *ssa.Parameter) bool {
 		}
 	}
 	return ok && n > 0
+}
+
+type fieldStore struct {
+	field string
+	val   ssa.Value
+	pos   token.Pos
+}
+
+// fieldStores lists the stores into fields of the struct allocated by a (composite literal).
+func fieldStores(a *ssa.Alloc) []fieldStore {
+	var out []fieldStore
+	if a.Referrers() == nil {
+		return out
+	}
+	for _, ref := range *a.Referrers() {
+		fa, ok := ref.(*ssa.FieldAddr)
+		if !ok || fa.Referrers() == nil {
+			continue
+		}
+		for _, u := range *fa.Referrers() {
+			if st, ok := u.(*ssa.Store); ok && st.Addr == ssa.Value(fa) {
+				out = append(out, fieldStore{fieldName(fa.X.Type(), fa.Field), st.Val, st.Pos()})
+			}
+		}
+	}
+	return out
 }
